@@ -529,15 +529,17 @@ impl<T: GcManaged> GcManaged for Vec<T> {
     }
 }
 
-impl<K, V: GcManaged, S> GcManaged for HashMap<K, V, S> {
+impl<K: GcManaged, V: GcManaged, S> GcManaged for HashMap<K, V, S> {
     fn mark(&self) {
-        for v in self.values() {
+        for (k, v) in self {
+            k.mark();
             v.mark();
         }
     }
 
     fn blacken(&self) {
-        for v in self.values() {
+        for (k, v) in self {
+            k.blacken();
             v.blacken();
         }
     }
